@@ -507,6 +507,7 @@ func runC03(c *hx.Ctx) {
 	x.hugePacket()
 	x.encoderCases()
 	x.connCases()
+	x.loopbackQuick()
 	if c.Thorough() {
 		x.loopbackCases()
 	}
@@ -521,6 +522,32 @@ func kv(fields []string, key string) string {
 	return ""
 }
 
+// parseAll cuts a stream the naive way; nil unless it is a clean run of decodable packets
+func parseAll(stream []byte, lim int64) []packet.Generic {
+	var out []packet.Generic
+	for pos := 0; pos < len(stream); {
+		L, t := 0, packet.Type(0)
+		for k := 2; k <= 5 && pos+k <= len(stream); k++ {
+			if L, t = packet.DetectPacket(stream[pos : pos+k]); L > 0 {
+				break
+			}
+		}
+		if L <= 0 || pos+L > len(stream) || (lim > 0 && int64(L) > lim) {
+			return nil
+		}
+		p, err := t.New()
+		if err != nil {
+			return nil
+		}
+		if _, err = p.Decode(stream[pos : pos+L]); err != nil {
+			return nil
+		}
+		out = append(out, p)
+		pos += L
+	}
+	return out
+}
+
 func (x *c03) replay(path string) {
 	for _, l := range hx.ReadLines(path) {
 		f := strings.Fields(l)
@@ -530,9 +557,34 @@ func (x *c03) replay(path string) {
 		switch f[2] {
 		case "dec":
 			stream := hx.Unhx(kv(f, "stream"))
-			x.decCase(stream, parseSizes(kv(f, "cuts")), int64(hx.Atoi(kv(f, "lim"))), kv(f, "end") == "err", nil)
+			lim := int64(hx.Atoi(kv(f, "lim")))
+			x.decCase(stream, parseSizes(kv(f, "cuts")), lim, kv(f, "end") == "err", parseAll(stream, lim))
 		case "huge":
 			x.hugePacket()
+		case "tcp":
+			stream := hx.Unhx(kv(f, "stream"))
+			lim := int64(hx.Atoi(kv(f, "lim")))
+			x.loopbackReceive("tcp", stream, randomSizes(x.c.Rng, len(stream), 50), lim, -1, true, parseAll(stream, lim))
+		case "ws":
+			var stream []byte
+			var sizes []int
+			textAt := -1
+			if ms := kv(f, "msgs"); ms != "-" {
+				for i, m := range strings.Split(ms, ",") {
+					b := hx.Unhx(m[2:])
+					if m[0] == 't' {
+						textAt = i
+					}
+					stream = append(stream, b...)
+					sizes = append(sizes, len(b))
+				}
+			}
+			lim := int64(hx.Atoi(kv(f, "lim")))
+			var sent []packet.Generic
+			if textAt < 0 {
+				sent = parseAll(stream, lim)
+			}
+			x.loopbackReceiveFrag("ws", stream, sizes, lim, textAt, kv(f, "end") == "close", sent, hx.Atoi(kv(f, "frag")))
 		case "enc":
 			x.encCase(parseEncScript(f))
 		case "cn":
